@@ -5,10 +5,12 @@ data_generator_runtime_object_model.py (for_each, _generate_fields), parse_recip
 (build_update_recipe).  Model: coq/theories/Datasets.v.
 
 A case is a small recipe (tree of object templates with count / for_each, Dataset.iterate /
-Dataset.shuffle fields, nested objects, friends), the CSV files it reads (the same content is
-also loaded into SQLite tables), the number of iterations, or an update-mode run.  Rows are
-captured raw by an output stream defined here, so column values never pass through an
-output encoder.
+Dataset.shuffle fields — also with `name`, which makes calls share one remembered iterator —
+nested objects, friends), the CSV files it reads (the same content is also loaded into SQLite
+tables), the number of iterations, or an update-mode run, or a run continuing an earlier one;
+or (kind csv) just a text that is read by csv.reader and Snowfakery's linear CSV iterator.
+Rows are captured raw by an output stream defined here, so column values never pass through
+an output encoder.
 """
 import ast
 import csv
@@ -31,24 +33,41 @@ RULE = ("cases: recipes over generated CSV files (0-7 records, 1-4 columns, quot
         "quotes/newlines, unicode, BOM, CRLF, blank lines, short lines) and SQLite tables with the same "
         "content; Dataset.iterate / Dataset.shuffle consumers (count 0..3n+2) at top level, as friend, as "
         "nested object, with repeat unset/True/False; for_each templates (also nested, also shuffled); "
-        "consumers inside / below a for_each; update mode with pass-through fields; 1-2 iterations; a malformed stream "
-        "(line longer than the header, rejected update recipes, missing columns; long lines oracle-only).  The rows "
-        "written (per template: for_each record, child_index, consumed records per call site, projected "
-        "columns) and the outcome are compared with the Coq model; shuffled passes (any number of shuffled uses, also interleaved consumers of one file) are read back per use and replayed in the model; datasets of 499/500/501/1000/1300 records consumed for a full cycle. "
+        "consumers inside / below a for_each; update mode with pass-through fields; 1-3 iterations; a malformed stream "
+        "(line longer than the header, rejected update recipes, missing columns; long lines oracle-only).  "
+        "Calls with a `name` keyword (also falsy names and keywords the plugin ignores such as iteration_mode): a named "
+        "for_each at top level over 2-3 iterations / below a parent with several rows / below another for_each, field "
+        "consumers sharing a name (one row, sibling templates, friend, nested object, a for_each template's own field), "
+        "for_each and field consumer under one name, iterate and shuffle under one name, two names; runs that continue "
+        "an earlier run from its continuation file.  The rows "
+        "written (per template: for_each record, child_index, consumed records per state key, projected "
+        "columns) and the outcome are compared with the Coq model; the text of every CSV file a case reads is parsed by "
+        "the model's csv reader and compared with csv.reader and with the records the recipe consumed; a separate stream "
+        "of arbitrary texts (quotes in bare cells, text after a closing quote, unterminated quotes, lone CRs, blank and "
+        "over-long rows, no header, U+FEFF anywhere) is read by csv.reader and drained through Snowfakery's linear CSV "
+        "iterator and compared with the model; shuffled passes (any number of shuffled uses, also interleaved consumers "
+        "of one file, also iterators shared by name) are read back per iterator and replayed in the model; datasets of "
+        "499/500/501/1000/1300 records consumed for a full cycle. "
         "non-trivial: some dataset with >= 2 records is drawn from at least twice (wrap-around, cycle, "
-        "for_each) or is over-consumed; distinct by case hash")
+        "for_each) or is over-consumed, or an arbitrary text with >= 2 rows; distinct by case hash")
 TRUSTED = ["harness/oracle_random.py: random.Random._randbelow patched so that runs are reproducible from the case",
            "harness/c17.py: CaptureStream (an OutputStream subclass passed by dotted name as output_format) records "
            "raw row values; the permutation of every shuffled pass (random.shuffle for CSV, ORDER BY random() inside "
            "SQLite) is read back from the output and given to the model as the equivalent Fisher-Yates draws, so the "
            "model comparison checks 'some permutation per pass', the oracle checks exactly-once directly",
-           "python csv module (reader) as the reference decoder of the generated CSV text"]
-ASSUMPTIONS = ["csv.DictReader / SQLAlchemy+SQLite deliver the stored records in storage order with every cell intact "
-               "(library code; sampled by every case, not proved)",
+           "python csv module (reader) as the reference decoder of the generated CSV text — now also checked against the "
+           "model's reader (Datasets.v csv_rows) on every file",
+           "harness/c17.py spec_run: the order in which the call sites of a recipe consume (fields in order, nested "
+           "objects, the row, friends) used to line up the uses of an iterator shared by name"]
+ASSUMPTIONS = ["UTF-8 decoding of the file (code points in, code points out) and SQLAlchemy+SQLite delivering the stored "
+               "rows in storage order with every cell intact are library code: sampled by every case, not proved; the CSV "
+               "record reader itself (line splitting, BOM, quoting, blank lines, DictReader) is modelled and proved",
+               "header names of a CSV file are distinct (a record is modelled as its cells in header order)",
                "a shuffled pass (random.shuffle / SQLite ORDER BY random()) is some permutation of the records; the model "
                "represents it as Fisher-Yates over an arbitrary oracle stream and the theorems hold for every stream",
                "the dataset file does not change while a recipe runs",
-               "call-site identifiers (id() of live StructuredValue objects) are distinct"]
+               "call-site identifiers (id() of live StructuredValue objects) are distinct",
+               "the `parent` keyword of memorable functions (state reset per parent row) is not modelled and not generated"]
 EXHAUSTIVE = {"quick": False, "thorough": True}
 
 NAMES = ["a", "b", "c", "d", "City", "Zip_Code", "k1", "Name", "X", "oid"]
@@ -125,6 +144,30 @@ def decode_reference(ds):
             continue
         recs.append([*r, *([None] * (len(header) - len(r)))])
     return header, recs
+
+
+def reader_rows(ds):
+    """list(csv.reader(f)) for the file as Snowfakery opens it (utf-8-sig, newline='')"""
+    return list(csv.reader(io.StringIO(file_bytes(ds).decode("utf-8-sig"), newline="")))
+
+
+def dict_records(rows):
+    """csv.DictReader over reader rows, as [[key, value], ...] per record, up to the first row that is longer
+    than the header (Snowfakery's plugin_result raises a DataGenError there): (header, records, failed)"""
+    if not rows:
+        return None, [], False
+    header = rows[0]
+    out = []
+    for r in rows[1:]:
+        if r == []:
+            continue
+        if len(r) > len(header):
+            return header, out, True
+        d = dict(zip(header, r))
+        for k in header[len(r):]:
+            d[k] = None
+        out.append([[k, v] for k, v in d.items()])
+    return header, out, False
 
 
 PLAIN = "abxyzQRS"
@@ -224,8 +267,24 @@ def gen_dataset(rng, n, ncols=None, short=False, distinct=False, plain=False, pk
 
 
 # ---------------------------------------------------------------- recipe structure helpers
-def use(ds, src="csv", mode="iterate", repeat=None, table=True):
-    return {"ds": ds, "src": src, "mode": mode, "repeat": repeat, "table": table}
+def use(ds, src="csv", mode="iterate", repeat=None, table=True, name=None, extra=None):
+    """a Dataset.iterate / Dataset.shuffle call.  name: the `name` keyword (None = absent; "" / 0 are written
+    but falsy, i.e. the call stays unnamed); extra: keywords the plugin ignores (iteration_mode, ...)"""
+    u = {"ds": ds, "src": src, "mode": mode, "repeat": repeat, "table": table}
+    if name is not None:
+        u["name"] = name
+    if extra:
+        u["extra"] = [list(kv) for kv in extra]
+    return u
+
+
+def key_of(sid, u):
+    """the key under which evaluate_memorable_function remembers the call's iterator: the name together with
+    the function, else the call site (transcribed in Datasets.v key_of)"""
+    nm = u.get("name")
+    if nm:
+        return "name/%s/%s" % (u["mode"], nm)
+    return "site/%d" % sid
 
 
 def tmpl(tid, loop, sites=(), pas=(), nested=(), friends=(), nick=False):
@@ -312,7 +371,7 @@ def gen_consumer_case(rng, n=None, m=None, mode=None, repeat="?", src=None, plac
     repeat = rng.choice([None, None, True, False]) if repeat == "?" else repeat
     placement = placement or rng.choice(["top", "top", "friend", "nested", "deep", "two_sites", "two_templates"])
     iters = iters or rng.choice([1, 1, 2])
-    u = use("d0", src, mode, repeat, table=rng.random() < 0.6)
+    u = decorate(rng, use("d0", src, mode, repeat, table=rng.random() < 0.6))
     cons = tmpl(1, ["count", m] if (m != 1 or rng.random() < 0.5) else ["default"], sites=[[1, u]],
                 nick=rng.random() < 0.2)
     if placement == "top":
@@ -361,7 +420,7 @@ def gen_foreach_case(rng, n=None, mode=None, src=None, placement=None, iters=Non
     mode = mode or rng.choice(["iterate", "iterate", "shuffle"])
     placement = placement or rng.choice(["top", "top", "friend", "nested", "inner_foreach", "with_children"])
     iters = iters or rng.choice([1, 1, 2])
-    u = use("d0", src, mode, rng.choice([None, None, True, False]), table=rng.random() < 0.6)
+    u = decorate(rng, use("d0", src, mode, rng.choice([None, None, True, False]), table=rng.random() < 0.6), p_name=0.25)
     fe = tmpl(1, ["foreach", u], pas=pick_pass(rng, ds, allow_missing=True), nick=rng.random() < 0.2)
     datasets = {"d0": ds}
     target = None
@@ -400,7 +459,7 @@ def gen_scope_case(rng):
     n = rng.randint(0, 5)
     ds = gen_dataset(rng, n, distinct=True)
     ds1 = gen_dataset(rng, rng.randint(0, 3), distinct=True)
-    u = use("d0", "csv", rng.choice(["iterate", "iterate", "shuffle"]), rng.choice([None, False]))
+    u = decorate(rng, use("d0", "csv", rng.choice(["iterate", "iterate", "shuffle"]), rng.choice([None, False])))
     where = rng.choice(["own", "friend", "nested"])
     m = rng.randint(0, 3)
     if where == "own":
@@ -447,6 +506,155 @@ def gen_update_case(rng, n=None):
 
 def _raw(rng, k=40):
     return [rng.randint(0, 10 ** 6) for _ in range(k)]
+
+
+DS_NAMES = ["people", "nmA", "nmB", "X1", "shared_7"]
+IGNORED_KW = [("iteration_mode", "shuffle"), ("iteration_mode", "linear"), ("mode", "shuffle"), ("start", "2"),
+              ("shuffle", "True"), ("cycle", "False")]
+
+
+def decorate(rng, u, p_name=0.15, p_extra=0.05):
+    """keywords of a Dataset call that must not change what C17 prescribes for a call standing alone: a `name`
+    (nobody else uses it), a falsy name, keywords the plugin does not know"""
+    r = rng.random()
+    if r < p_name:
+        u["name"] = rng.choice(DS_NAMES)
+    elif r < p_name + 0.03:
+        u["name"] = rng.choice(["", 0])
+    if rng.random() < p_extra:
+        u["extra"] = [list(rng.choice(IGNORED_KW))]
+    return u
+
+
+def gen_named_case(rng, shape=None, n=None):
+    """Dataset calls with a `name`: the remembered iterator is shared by all calls of the same function under
+    that name, wherever they stand (fields of one row, sibling templates, a template and its friend / nested
+    object, a for_each template's own field), over several iterations — and a for_each over a named dataset
+    (top level with 2-3 iterations, below a parent with several rows, below another for_each) starts afresh at
+    every evaluation, leaving the iterator remembered under the name alone."""
+    n = rng.randint(0, 5) if n is None else n
+    src = rng.choice(["csv", "csv", "csv", "sql"])
+    ds = gen_dataset(rng, n, ncols=rng.choice([1, 2, 3]), distinct=True,
+                     pk=rng.choice(PK_KINDS) if (src == "sql" and rng.random() < 0.4) else None)
+    datasets = {"d0": ds}
+    nm = rng.choice(DS_NAMES)
+    mode = rng.choice(["iterate", "iterate", "shuffle"])
+    rep = rng.choice([None, None, True, False])
+    tbl = rng.random() < 0.6
+
+    def call(mode_=None, name=nm, repeat="?"):
+        u = use("d0", src, mode_ or mode, rep if repeat == "?" else repeat, table=tbl, name=name)
+        if rng.random() < 0.05:
+            u["extra"] = [list(rng.choice(IGNORED_KW))]
+        return u
+
+    shape = shape or rng.choice(["fe_top", "fe_top", "fe_under_count", "fe_under_count", "fe_under_fe",
+                                 "fe_and_site", "fe_and_site", "sites_row", "sites_siblings", "sites_friend",
+                                 "sites_nested", "sites_fe_own", "fn_differs", "two_names", "falsy"])
+    iters = rng.choice([2, 2, 3])
+    pas = lambda: pick_pass(rng, ds)
+    if shape == "fe_top":
+        recipe = [tmpl(1, ["foreach", call()], pas=pas(), nick=rng.random() < 0.2)]
+        if rng.random() < 0.4:
+            recipe.append(tmpl(2, ["foreach", call()], pas=pas()))      # a second loop over the same name
+    elif shape == "fe_under_count":
+        fe = tmpl(1, ["foreach", call()], pas=pas())
+        m = rng.randint(2, 3)
+        recipe = [tmpl(2, ["count", m], friends=[fe])] if rng.random() < 0.5 else [tmpl(2, ["count", m], nested=[fe])]
+        iters = rng.choice([1, 2])
+    elif shape == "fe_under_fe":
+        ds1 = gen_dataset(rng, rng.randint(2, 3), distinct=True)
+        datasets["d1"] = ds1
+        inner = tmpl(1, ["foreach", call()], pas=pas())
+        same = rng.random() < 0.5                       # the outer loop under the same name / its own / none
+        outer_u = use("d1", "csv", "iterate", None, name=rng.choice([nm, "outer", None]) if not same else nm)
+        outer = tmpl(2, ["foreach", outer_u], pas=pick_pass(rng, ds1))
+        if rng.random() < 0.6:
+            outer["friends"] = [inner]
+        else:
+            outer["nested"] = [inner]
+        recipe = [outer]
+        iters = rng.choice([1, 2])
+    elif shape == "fe_and_site":
+        # a for_each and a field consumer under the same name and function: the loop must neither use nor move
+        # the consumer's iterator
+        fe = tmpl(1, ["foreach", call()], pas=pas())
+        cons = tmpl(2, ["count", rng.randint(1, n + 2)], sites=[[1, call()]])
+        where = rng.choice(["before", "after", "friend_of_fe", "nested_in_fe", "own_field", "fe_friend_of_cons"])
+        if where == "before":
+            recipe = [cons, fe]
+        elif where == "after":
+            recipe = [fe, cons]
+        elif where == "friend_of_fe":
+            fe["friends"] = [cons]
+            recipe = [fe]
+        elif where == "nested_in_fe":
+            fe["nested"] = [cons]
+            recipe = [fe]
+        elif where == "own_field":
+            fe["sites"] = [[1, call()]]
+            recipe = [fe]
+        else:
+            cons["friends"] = [fe]
+            recipe = [cons]
+        iters = rng.choice([1, 2, 2])
+    elif shape == "sites_row":
+        k = rng.choice([2, 2, 3])
+        recipe = [tmpl(1, ["count", rng.randint(1, n + 2)], sites=[[i + 1, call()] for i in range(k)])]
+    elif shape == "sites_siblings":
+        recipe = [tmpl(1, ["count", rng.randint(0, 3)], sites=[[1, call()]]),
+                  tmpl(2, ["count", rng.randint(1, 3)], sites=[[2, call()]])]
+        if rng.random() < 0.3:
+            recipe.append(tmpl(3, ["default"], sites=[[3, call()]]))
+    elif shape == "sites_friend":
+        recipe = [tmpl(1, ["count", rng.randint(1, 3)], sites=[[1, call()]],
+                       friends=[tmpl(2, ["count", rng.randint(1, 2)], sites=[[2, call()]])])]
+    elif shape == "sites_nested":
+        # the nested object's row is written before the row that contains it, but consumes after that row's field
+        recipe = [tmpl(1, ["count", rng.randint(1, 3)], sites=[[1, call()]],
+                       nested=[tmpl(2, ["count", rng.randint(1, 2)], sites=[[2, call()]])])]
+    elif shape == "sites_fe_own":
+        ds1 = gen_dataset(rng, rng.randint(1, 3), distinct=True)
+        datasets["d1"] = ds1
+        recipe = [tmpl(1, ["foreach", use("d1", "csv", "iterate", None)], sites=[[1, call()]],
+                       friends=[tmpl(2, ["default"], sites=[[2, call()]])])]
+    elif shape == "fn_differs":
+        # Dataset.iterate and Dataset.shuffle under one name are two iterators
+        recipe = [tmpl(1, ["count", rng.randint(1, n + 2)], sites=[[1, call("iterate")], [2, call("shuffle")]])]
+        if rng.random() < 0.5:
+            recipe.append(tmpl(2, ["count", rng.randint(1, 2)], sites=[[3, call(rng.choice(["iterate", "shuffle"]))]]))
+    elif shape == "two_names":
+        other = rng.choice([x for x in DS_NAMES if x != nm])
+        recipe = [tmpl(1, ["count", rng.randint(1, n + 2)], sites=[[1, call()], [2, call(name=other)]]),
+                  tmpl(2, ["count", rng.randint(1, 2)], sites=[[3, call(name=rng.choice([nm, other]))]])]
+    else:
+        # a falsy name is no name: each call site keeps its own iterator (the two sites never carry the same
+        # falsy value, so the expectation does not depend on how an empty name is told from no name)
+        recipe = [tmpl(1, ["count", rng.randint(1, n + 2)], sites=[[1, call(name=rng.choice(["", 0]))], [2, call(name=None)]])]
+    return {"kind": "run", "datasets": datasets, "recipe": recipe, "iters": iters, "tick": True, "raw": _raw(rng),
+            "shape": "named/" + shape}
+
+
+def gen_cont_case(rng):
+    """a run that continues an earlier run (continuation file): every for_each of the continuing run — named or
+    not, top level or below a parent with several rows — again writes one row per record, in order."""
+    n = rng.randint(0, 5)
+    ds = gen_dataset(rng, n, ncols=rng.choice([1, 2]), distinct=True)
+    mode = rng.choice(["iterate", "iterate", "shuffle"])
+    name = rng.choice([None, None, rng.choice(DS_NAMES)])
+    fe = tmpl(1, ["foreach", use("d0", "csv", mode, rng.choice([None, False]), name=name)], pas=pick_pass(rng, ds),
+              nick=rng.random() < 0.2)
+    r = rng.random()
+    if r < 0.5:
+        recipe = [fe]
+    elif r < 0.75:
+        recipe = [tmpl(2, ["count", rng.randint(1, 3)], friends=[fe])]
+    else:
+        recipe = [tmpl(2, ["count", rng.randint(1, 2)], nested=[fe])]
+    if rng.random() < 0.3:
+        recipe.append(tmpl(3, ["foreach", use("d0", "csv", "iterate", None, name=name)]))
+    return {"kind": "run", "datasets": {"d0": ds}, "recipe": recipe, "iters": rng.choice([1, 2]), "tick": True,
+            "cont": rng.choice([1, 2]), "raw": _raw(rng), "shape": "continuation"}
 
 
 def gen_interleaved_case(rng, n=None):
@@ -589,6 +797,59 @@ def gen_long_case(rng):
             "raw": [rng.randint(0, 10 ** 6) for _ in range(20)]}
 
 
+WILD = ["a", "b", "xy", ",", ",", '"', '"', '""', "\n", "\n", "\r\n", "\r", " ", "é", "\ufeff", ",,", '","', '"\n"', "0", "漢"]
+
+
+def wild_text(rng, k=None):
+    k = rng.choice([0, 1, 2, 3, 5, 8, 13, 21, 34]) if k is None else k
+    return "".join(rng.choice(WILD) for _ in range(k))
+
+
+def gen_csv_case(rng):
+    """an arbitrary text (not what a CSV writer produces: quotes in bare cells, text after a closing quote,
+    unterminated quotes, lone CRs, blank and over-long rows, no header, duplicate header names, a byte order
+    mark or U+FEFF anywhere) read by csv.reader and drained through Snowfakery's linear CSV iterator; compared
+    with the model's reader (CCsv)"""
+    r = rng.random()
+    if r < 0.6:
+        header = rng.sample(NAMES, rng.choice([1, 2, 2, 3]))
+        text = ",".join(header) + rng.choice(["\n", "\r\n", "\r"]) + wild_text(rng)
+    else:
+        text = wild_text(rng)
+    ds = {"text": text, "bom": rng.random() < 0.3, "header": [], "rows": [], "safe": []}
+    return {"kind": "csv", "datasets": {"d0": ds}, "recipe": [], "iters": 1, "raw": [], "shape": "wild_csv"}
+
+
+def gen_wild_case(rng):
+    """a wild file with a clean header inside a recipe: for_each / consumers over it get the records the
+    reference reader finds (rows longer than the header: oracle only, as in gen_long_case)"""
+    for _ in range(50):
+        header = rng.sample(NAMES, rng.choice([1, 2, 2, 3]))
+        text = ",".join(header) + rng.choice(["\n", "\r\n"]) + wild_text(rng, rng.choice([3, 5, 8, 13, 21]))
+        ds = {"text": text, "bom": rng.random() < 0.3, "header": header, "safe": [False] * len(header)}
+        rows = reader_rows(ds)
+        recs = [r for r in rows[1:] if r != []]
+        if len(recs) > 7:
+            continue
+        bad = [i for i, r in enumerate(recs) if len(r) > len(header)]
+        ds["rows"] = [([*r, *([None] * (len(header) - len(r)))] if len(r) <= len(header) else list(r)) for r in recs]
+        if bad:
+            ds["long"] = bad[0]
+        break
+    if "rows" not in ds:
+        ds["text"] = ",".join(header) + "\n"
+        ds["rows"] = []
+    n = len(ds["rows"])
+    mode = rng.choice(["iterate", "iterate", "shuffle"])
+    if rng.random() < 0.5:
+        recipe = [tmpl(1, ["foreach", use("d0", "csv", mode, None)])]
+    else:
+        recipe = [tmpl(1, ["count", rng.randint(0, 2 * n + 1)], sites=[[1, use("d0", "csv", mode, rng.choice([None, False]))]])]
+    iters = rng.choice([1, 2])
+    return {"kind": "run", "datasets": {"d0": ds}, "recipe": recipe, "iters": iters, "tick": iters > 1,
+            "raw": _raw(rng), "shape": "wild_file_in_recipe"}
+
+
 def boundary_cases(rng):
     out = []
     for n in (0, 1, 2, 3):
@@ -603,6 +864,8 @@ def boundary_cases(rng):
         out.append(gen_foreach_case(rng, n=n, mode="shuffle", src="csv", placement="top", iters=2))
         out.append(gen_foreach_case(rng, n=n, mode="iterate", src="sql", placement="top", iters=1))
         out.append(gen_update_case(rng, n=n))
+        for shape in ("fe_top", "fe_under_count", "fe_and_site", "sites_siblings"):
+            out.append(gen_named_case(rng, shape=shape, n=n))
     return out
 
 
@@ -623,20 +886,28 @@ def exhaustive_cases(rng):
 def generate(rng, tier):
     cases = boundary_cases(rng)
     k = 3 if tier == "quick" else 30
-    for _ in range(260 * k):
+    for _ in range(170 * k):
         cases.append(gen_consumer_case(rng))
-    for _ in range(130 * k):
-        cases.append(gen_foreach_case(rng))
-    for _ in range(40 * k):
-        cases.append(gen_scope_case(rng))
     for _ in range(90 * k):
+        cases.append(gen_foreach_case(rng))
+    for _ in range(30 * k):
+        cases.append(gen_scope_case(rng))
+    for _ in range(60 * k):
         cases.append(gen_update_case(rng))
     for _ in range(12 * k):
         cases.append(gen_long_case(rng))
-    for _ in range(50 * k):
+    for _ in range(40 * k):
         cases.append(gen_interleaved_case(rng))
-    for _ in range(30 * k):
+    for _ in range(25 * k):
         cases.append(gen_dyn_case(rng))
+    for _ in range(70 * k):
+        cases.append(gen_named_case(rng))
+    for _ in range(15 * k):
+        cases.append(gen_cont_case(rng))
+    for _ in range(80 * k):
+        cases.append(gen_csv_case(rng))
+    for _ in range(30 * k):
+        cases.append(gen_wild_case(rng))
     cases.extend(big_cases(rng, tier))
     if tier == "thorough":
         cases.extend(exhaustive_cases(rng))
@@ -663,6 +934,10 @@ def _render_use(u, indent, root):
             lines.append(f"{pad}  table: t")
     if u["repeat"] is not None:
         lines.append(f"{pad}  repeat: {'True' if u['repeat'] else 'False'}")
+    if "name" in u:
+        lines.append(f"{pad}  name: {u['name'] if u['name'] != '' else repr('')}")
+    for k, v in u.get("extra", []):
+        lines.append(f"{pad}  {k}: {v}")
     return lines
 
 
@@ -731,7 +1006,49 @@ def run_impl(case):
         shutil.rmtree(root, ignore_errors=True)
 
 
+def _run_csv(case, root):
+    """kind csv: the file read by csv.reader the way Snowfakery opens it, and drained through Snowfakery's linear
+    CSV iterator (absent / differently shaped after a refactoring: skipped)"""
+    ds = case["datasets"]["d0"]
+    path = os.path.join(root, "d0.csv")
+    with open(path, "wb") as f:
+        f.write(file_bytes(ds))
+    out = {}
+    with open(path, "r", newline="", encoding="utf-8-sig") as f:
+        out["reader_rows"] = list(csv.reader(f))
+    try:
+        from pathlib import Path
+        from snowfakery.standard_plugins.datasets import CSVDatasetLinearIterator
+        it = CSVDatasetLinearIterator(Path(path), False)
+    except Exception as e:
+        out["skip"] = f"{type(e).__name__}: {e}"[:120]
+        return out
+    recs = []
+    try:
+        try:
+            for r in it:
+                res = getattr(r, "result", None)
+                if not hasattr(res, "items"):
+                    out["skip"] = "record without .result mapping"
+                    break
+                recs.append([[k, v] for k, v in res.items()])
+                if len(recs) > 500:
+                    break
+        except BaseException as e:
+            out["err"] = C.canon_exc(e)
+            out["msg"] = str(e)[:120]
+    finally:
+        try:
+            it.close()
+        except Exception:
+            pass
+    out["records"] = recs
+    return out
+
+
 def _run(case, root):
+    if case["kind"] == "csv":
+        return _run_csv(case, root)
     from snowfakery import generate_data
     sql_used = {u["ds"] for _, _, _, u, _ in all_uses(case) if u["src"] == "sql"}
     for t, _ in walk(case["recipe"]):        # update mode: the template's own for_each too
@@ -777,6 +1094,14 @@ def _run(case, root):
     raw = case["raw"] or [0]
     with injected_randbelow(chooser=lambda n, idx: raw[idx % len(raw)] % n) as rec:   # reproducible, never runs dry
         try:
+            if case.get("cont"):
+                # an earlier run of the same recipe leaves a continuation file; the observed run continues it
+                cont_path = os.path.join(root, "cont.yml")
+                generate_data(recipe_path, output_format="harness.c17.CaptureStream",
+                              target_number=("Tick", case["cont"]), generate_continuation_file=cont_path)
+                out["prelude_rows"] = len(_ROWS)
+                del _ROWS[:]
+                kw["continuation_file"] = cont_path
             generate_data(recipe_path, output_format="harness.c17.CaptureStream", **kw)
         except BaseException as e:
             out["err"] = C.canon_exc(e)
@@ -862,9 +1187,23 @@ def c_text(s):
     return C.clist(C.cz(ord(ch)) for ch in s)
 
 
+def name_ids(case):
+    """names used in the recipe -> the numbers that stand for them in the model"""
+    names = sorted({str(u["name"]) for _k, _t, _s, u, _b in all_uses(case) if u.get("name")})
+    return {nm: i + 1 for i, nm in enumerate(names)}
+
+
 def c_use(case, u):
     mode = "Linear" if u["mode"] == "iterate" else "Shuffled"
-    return f"(mkDs {C.clist(c_rec(r) for r in data_of(case, u))} {mode} {C.cbool(u['repeat'] is not False)})"
+    nm = "None" if not u.get("name") else f"(Some {C.cnat(name_ids(case)[str(u['name'])])})"
+    return f"(mkDs {C.clist(c_rec(r) for r in data_of(case, u))} {mode} {C.cbool(u['repeat'] is not False)} {nm})"
+
+
+def c_key(case, sid, u):
+    if u.get("name"):
+        mode = "Linear" if u["mode"] == "iterate" else "Shuffled"
+        return f"(KName {mode} {C.cnat(name_ids(case)[str(u['name'])])})"
+    return f"(KSite {C.cnat(sid)})"
 
 
 def c_tmpl(case, t, update_top=False):
@@ -890,8 +1229,8 @@ def c_tmpls(case, ts):
     return out
 
 
-def c_row(r):
-    cons = C.clist(f"({C.cnat(sid)}, {c_rec(cells)})" for sid, cells in r["cons"])
+def c_row(r, keys):
+    cons = C.clist(f"({keys[sid]}, {c_rec(cells)})" for sid, cells in r["cons"])
     pas = C.clist(c_text(p) for p in r["pas"])
     return f"(mkRow {C.cnat(r['tid'])} {C.copt(r['fe'], c_rec)} {C.cz(r['ci'])} {cons} {pas})"
 
@@ -913,35 +1252,54 @@ def fy_draws(n, prefix):
     return draws
 
 
+def _event_values(rows, evs):
+    """the records consumed at the given uses (tid, ordinal, sid), None where the row was never written"""
+    by_tid = {}
+    for r in rows:
+        by_tid.setdefault(r["tid"], []).append(r)
+    out = []
+    for tid, ordinal, sid in evs:
+        trows = by_tid.get(tid, [])
+        out.append(dict(trows[ordinal]["cons"]).get(sid) if ordinal < len(trows) else None)
+    return out
+
+
 def infer_draws(case, rows):
-    """The permutation of every pass of every shuffled use is read back from that use's own rows and turned
-    into the Fisher-Yates draws that produce it; the passes are put in the order in which the recipe starts
+    """The permutation of every pass of every shuffled iterator is read back from the rows that consumed it and
+    turned into the Fisher-Yates draws that produce it; the passes are put in the order in which the recipe starts
     them (spec_run).  SQLite's ORDER BY random() cannot be injected, and for CSV files this keeps the
-    comparison independent of how the code obtains its permutation (random.shuffle today)."""
+    comparison independent of how the code obtains its permutation (random.shuffle today).  An iterator shared
+    by several call sites (`name`) is read back in the order of its uses; a use whose row was never written
+    (the run failed inside that row) is filled with a record the pass has not shown."""
+    sp = spec_run(case)
     uses = {}
     for kind, t, sid, u, _b in all_uses(case):
-        if u["mode"] == "shuffle":
-            uses[("fe", t["tid"]) if kind == "foreach" else ("site", sid)] = (t, sid, u)
+        if u["mode"] == "shuffle" and kind == "foreach":
+            uses[("fe", t["tid"])] = (t, u)
+    for key, ou in sp.owner.items():
+        if ou["mode"] == "shuffle":
+            uses[("key", key)] = (None, ou)
     if not uses:
         return []
     groups = {}
-    for key, (t, sid, u) in uses.items():
+    for key, (t, u) in uses.items():
         n = len(data_of(case, u))
-        trows = [r for r in rows if r["tid"] == t["tid"]]
         g = []
         if key[0] == "fe":
-            for r in trows:
+            for r in (r for r in rows if r["tid"] == t["tid"]):
                 if r["ci"] == 0 or not g:
                     g.append([])
                 g[-1].append(r["fe"])
         else:
-            vals = [dict(r["cons"]).get(sid) for r in trows]
+            vals = _event_values(rows, sp.cons.get(key[1], []))
             g = [vals[i:i + n] for i in range(0, len(vals), max(n, 1))]
         groups[key] = g
     draws = []
     maxn = 1
-    for key, j in spec_run(case)[2]:
-        t, sid, u = uses[key]
+    for key, j in sp.events:
+        if key not in uses:
+            continue
+        t, u = uses[key]
         data = data_of(case, u)
         n = len(data)
         maxn = max(maxn, n)
@@ -949,17 +1307,71 @@ def infer_draws(case, rows):
         for i, d in enumerate(data):
             where.setdefault(tuple(d), []).append(i)
         where = {k: list(reversed(v)) for k, v in where.items()}
-        prefix = []
+        idxs = []
         for v in (groups[key][j] if j < len(groups[key]) else []):
+            if v is None:
+                idxs.append(None)
+                continue
             lst = where.get(tuple(v))
             if not lst:
                 return "noperm"
-            prefix.append(lst.pop())
-        draws += fy_draws(n, prefix)
+            idxs.append(lst.pop())
+        seen = {i for i in idxs if i is not None}
+        spare = (i for i in range(n) if i not in seen)
+        draws += fy_draws(n, [i if i is not None else next(spare) for i in idxs])
     return draws + [0] * (3 * maxn)
 
 
+def c_field(f):
+    return C.clist(C.cz(ord(ch)) for ch in f)
+
+
+def c_rows(rows):
+    return C.clist(C.clist(c_field(f) for f in r) for r in rows)
+
+
+def file_text(ds):
+    return C.clist(C.cz(ord(ch)) for ch in file_bytes(ds).decode("utf-8"))
+
+
+def c_file(ds):
+    """the file's text, what csv.reader returns for it, and (no over-long row) its header and records"""
+    rows = reader_rows(ds)
+    recs = "None"
+    if "long" not in ds:
+        h = "None" if not rows else f"(Some {C.clist(c_field(f) for f in rows[0])})"
+        recs = f"(Some ({h}, {C.clist(c_rec(r) for r in ds['rows'])}))"
+    return f"(mkFile {file_text(ds)} {c_rows(rows)} {recs})"
+
+
+def c_files(case):
+    used = sorted({u["ds"] for _k, _t, _s, u, _b in all_uses(case) if u["src"] == "csv" and not u.get("dyn")})
+    if case["kind"] == "update":
+        used = sorted(set(used) | {case["input"]})
+    return C.clist(c_file(case["datasets"][name]) for name in used)
+
+
+def coq_csv_case(case, obs):
+    ds = case["datasets"]["d0"]
+    rows = reader_rows(ds)
+    recs = "None"
+    header = rows[0] if rows else []
+    if not obs.get("skip") and "records" in obs and len(set(header)) == len(header) and obs.get("err") in (None, "DGE"):
+        got = []
+        for r in obs["records"]:
+            keys = [k for k, _ in r]
+            if keys != header or not all(v is None or isinstance(v, str) for _, v in r):
+                return None          # not a record in header order: reported by the oracle
+            got.append([v for _, v in r])
+        recs = f"(Some ({C.clist(c_rec(r) for r in got)}, {C.cbool(obs.get('err') == 'DGE')}))"
+    return f"CCsv {file_text(ds)} {c_rows(rows)} {recs}"
+
+
 def coq_case(case, obs):
+    if case["kind"] == "csv":
+        return coq_csv_case(case, obs)
+    if extra_rejected(case, obs):
+        return None
     if any("long" in ds for ds in case["datasets"].values()):
         return None                 # malformed file: outside the model, oracle only
     if any(u.get("dyn") for _k, _t, _s, u, _b in all_uses(case)):
@@ -979,14 +1391,15 @@ def coq_case(case, obs):
     top, _ = effective_top(case)
     tids = sorted({t["tid"] for t, _ in walk(case["recipe"])})
     e = "None" if err is None else f"(Some {C.cerr(err)})"
-    exp = C.clist(c_row(r) for r in rows)
+    keys = {sid: c_key(case, sid, u) for kind, _t, sid, u, _b in all_uses(case) if kind == "site"}
+    exp = C.clist(c_row(r, keys) for r in rows)
     orc_t = C.clist(C.cz(v) for v in orc)
     tids_t = C.clist(C.cnat(t) for t in tids)
     if case["kind"] == "update":
         inp = C.clist(c_rec(r) for r in case["datasets"][case["input"]]["rows"])
         pt = C.clist(C.cnat(col_index(case, use(case["input"]), name)) for name in case["passthrough"])
-        return f"CUpdate {c_tmpls(case, case['recipe'])} {inp} {pt} {orc_t} {tids_t} {exp} {e}"
-    return f"CRun {C.cnat(case['iters'])} {c_tmpls(case, case['recipe'])} {orc_t} {tids_t} {exp} {e}"
+        return f"CUpdate {c_files(case)} {c_tmpls(case, case['recipe'])} {inp} {pt} {orc_t} {tids_t} {exp} {e}"
+    return f"CRun {c_files(case)} {C.cnat(case['iters'])} {c_tmpls(case, case['recipe'])} {orc_t} {tids_t} {exp} {e}"
 
 
 # ---------------------------------------------------------------- property oracle (implementation only)
@@ -994,16 +1407,36 @@ class _SpecStop(Exception):
     pass
 
 
+class Spec:
+    """what the property prescribes for a case (spec_run)"""
+    __slots__ = ("counts", "must_fail", "events", "cons", "owner", "sharers")
+
+    def __iter__(self):                 # counts, must_fail, events = spec_run(case)
+        return iter((self.counts, self.must_fail, self.events))
+
+    def __getitem__(self, i):
+        return (self.counts, self.must_fail, self.events)[i]
+
+
 def spec_run(case):
     """What the property prescribes: rows per template, whether the run must end in an error, and the order
-    in which the shuffled uses start their passes (("site", sid) / ("fe", tid), pass number).
-    Every call site hands out record k mod n on its k-th use; repeat: False sites fail on use n+1;
-    an empty dataset fails on the first use; for_each expands once per record."""
+    in which the shuffled uses start their passes (("key", state key) / ("fe", tid), pass number).
+    Every remembered iterator — one per unnamed call site, one per (function, name) for named calls — hands out
+    record k mod n on its k-th use, whichever call site asks; a repeat: False iterator fails on use n+1; an empty
+    dataset fails on the first use; a for_each (named or not) expands once per record at every evaluation and
+    neither uses nor disturbs a remembered iterator.
+    cons[key] = the uses of that iterator in the order they happen: (tid, ordinal of the consuming row among the
+    rows of its template, sid); owner[key] = the call that created it (its arguments count)."""
+    sp = Spec()
     top, why = effective_top(case)
     counts = Counter()
     events = []
+    sp.counts, sp.must_fail, sp.events, sp.cons, sp.owner, sp.sharers = counts, True, events, {}, {}, {}
     if top is None:
-        return counts, True, events
+        return sp
+    for kind, t, sid, u, _b in all_uses(case):
+        if kind == "site":
+            sp.sharers.setdefault(key_of(sid, u), []).append(sid)
     used = Counter()
     passes = Counter()
     cur = {}
@@ -1031,16 +1464,19 @@ def spec_run(case):
             if loop[0] == "foreach" and loop[1]["mode"] == "iterate":
                 cur[t["tid"]] = fe_data[i]
             for sid, u in t["sites"]:
-                n = len(data_of(case, u))
-                k = used[sid]
-                if k == 0 or (n > 0 and k % n == 0 and u["repeat"] is not False):
-                    start(("site", sid), u)          # created at its first use, restarted after every n
-                if n == 0 or (u["repeat"] is False and k >= n):
+                key = key_of(sid, u)
+                ou = sp.owner.setdefault(key, u)         # the state is made by whoever asks first
+                n = len(data_of(case, ou))
+                k = used[key]
+                if k == 0 or (n > 0 and k % n == 0 and ou["repeat"] is not False):
+                    start(("key", key), ou)              # created at its first use, restarted after every n
+                if n == 0 or (ou["repeat"] is False and k >= n):
                     raise _SpecStop()
-                bad = case["datasets"][u["ds"]].get("long")
-                if bad is not None and (u["mode"] == "shuffle" or k % n == bad):
+                bad = case["datasets"][ou["ds"]].get("long")
+                if bad is not None and (ou["mode"] == "shuffle" or k % n == bad):
                     raise _SpecStop()
-                used[sid] += 1
+                sp.cons.setdefault(key, []).append((t["tid"], counts[t["tid"]], sid))
+                used[key] += 1
             for ch in t["nested"]:
                 gen(ch)
             if loop[0] == "foreach":
@@ -1056,12 +1492,14 @@ def spec_run(case):
             for t in top:
                 gen(t)
     except _SpecStop:
-        return counts, True, events
+        return sp
     if case["kind"] == "update" and case.get("target") and counts[top[0]["tid"]] < case["target"]:
         # update mode reads its input once (one shared non-repeating iterator): a second iteration finds it
         # used up, writes nothing, and the run must stop with an error, never start the file again
-        return counts, "target", events
-    return counts, False, events
+        sp.must_fail = "target"
+        return sp
+    sp.must_fail = False
+    return sp
 
 
 def spec_counts(case):
@@ -1116,13 +1554,52 @@ def _oracle_dyn(case, rows, t, u, err):
     return None
 
 
+def oracle_csv(case, obs):
+    """the linear CSV iterator delivers what csv.DictReader finds in the file: the non-blank rows after the
+    first row, in order, every cell intact, short rows filled with None — up to a row that is longer than the
+    header, where it raises a DataGenError (never a silent truncation / shift)"""
+    if obs.get("skip") or "records" not in obs:
+        return None
+    ds = case["datasets"]["d0"]
+    rows = reader_rows(ds)
+    if obs.get("reader_rows") != rows:
+        return f"record: csv.reader over the file gave {obs.get('reader_rows')}, over the same text in memory {rows}"
+    header, want, failed = dict_records(rows)
+    err = obs.get("err")
+    if err not in (None, "DGE"):
+        return f"outcome: reading the file ended with {err} ({obs.get('msg', '')[:80]})"
+    if obs["records"] != want:
+        return f"record: the iterator delivered {obs['records']}, the file holds {want}"
+    if failed != (err == "DGE"):
+        return f"outcome: over-long row present: {failed}, DataGenError raised: {err == 'DGE'}"
+    return None
+
+
+def extra_rejected(case, obs):
+    """a keyword the plugin does not know (iteration_mode, ...) must not change the iteration IF it is accepted;
+    an implementation that rejects unknown keywords outright (error before the call handed out anything) is not
+    C17's business"""
+    if not obs.get("err"):
+        return False
+    ex = [(k, t, sid) for k, t, sid, u, _b in all_uses(case) if u.get("extra")]
+    if not ex:
+        return False
+    tids = {t["tid"] for _k, t, _s in ex}
+    return not any(int(tab[1:]) in tids for tab, _ in obs.get("rows", []) if tab[1:].isdigit())
+
+
 def oracle(case, obs):
+    if case["kind"] == "csv":
+        return oracle_csv(case, obs)
+    if extra_rejected(case, obs):
+        return None
     for name, ds in case["datasets"].items():
         h, recs = decode_reference(ds)
         if h != ds["header"] or recs != ds["rows"]:
             raise AssertionError(f"reference decoder disagrees with the generator on {name}")
     err = obs.get("err")
-    counts, must_fail, _ev = spec_run(case)
+    sp = spec_run(case)
+    counts, must_fail, _ev = sp
     if err == "RuntimeError" and must_fail == "target":
         err = "DGE"       # "... At this rate we will never hit our target": the input is used up, the run stops with an error
     if err is not None and err != "DGE":
@@ -1142,6 +1619,8 @@ def oracle(case, obs):
         data = data_of(case, u)
         n = len(data)
         trows = [r for r in rows if r["tid"] == t["tid"]]
+        if kind == "site" and len(sp.sharers.get(key_of(sid, u), [])) > 1:
+            continue                     # an iterator shared through `name`: checked per iterator below
         if kind == "site":
             vals = [dict(r["cons"])[sid] for r in trows]
             msg = None
@@ -1194,6 +1673,35 @@ def oracle(case, obs):
                         return f"for_each: T{t['tid']} wrote a row although column {name} does not exist"
                     if got != _render(r["fe"][ci]):
                         return f"for_each: column {name} of {r['fe']} arrived as {got!r}"
+    # iterators shared by several call sites (`name`): the k-th use, whichever call site it is, gets record
+    # k mod n of the iterator's dataset (each record once per block of n for shuffle); uses whose row was never
+    # written (the run failed inside that row) are unknown
+    for key, sids in sp.sharers.items():
+        if len(sids) < 2 or key not in sp.owner:
+            continue
+        ou = sp.owner[key]
+        data = data_of(case, ou)
+        n = len(data)
+        seq = _event_values(rows, sp.cons.get(key, []))
+        msg = None
+        for k, v in enumerate(seq):
+            if v is None:
+                continue
+            if ou["mode"] == "iterate" and v != data[k % n]:
+                tid, ordinal, sid = sp.cons[key][k]
+                msg = (f"use {k} (0-based) of the {n}-record dataset (row {ordinal} of T{tid}, field s{sid}) is {v}, "
+                       f"expected record {k % n} = {data[k % n]}")
+                break
+        if not msg and ou["mode"] == "shuffle" and n > 0:
+            want = Counter(tuple(d) for d in data)
+            for b in range(0, len(seq), n):
+                blk = seq[b:b + n]
+                known = Counter(tuple(v) for v in blk if v is not None)
+                if (known - want) or (len(blk) == n and None not in blk and known != want):
+                    msg = f"uses {b}..{b + n - 1} of the shuffled {n}-record dataset are not a permutation of it: {blk}"
+                    break
+        if msg:
+            return f"iterate: the iterator named {ou.get('name')!r} shared by call sites {sids}: {msg}"
     # row counts and outcome, as the property prescribes them
     got = Counter(r["tid"] for r in rows)
     msg = None
@@ -1223,6 +1731,8 @@ def violation_class(case, obs, msg):
 
 # ---------------------------------------------------------------- evidence
 def nontrivial(case, obs):
+    if case["kind"] == "csv":
+        return "records" in obs and len(obs.get("reader_rows", [])) >= 2
     try:
         rows = decode(case, obs)
     except Exception:
@@ -1238,6 +1748,7 @@ def nontrivial(case, obs):
 def stats(cases, obss):
     kinds, sizes, modes, srcs, reps, outcomes, place, draws = (Counter() for _ in range(8))
     feats = Counter()
+    shapes = Counter()
     for c, o in zip(cases, obss):
         kinds[c["kind"]] += 1
         if isinstance(o, dict):
@@ -1262,6 +1773,22 @@ def stats(cases, obss):
                 m = t["loop"][1]
                 draws["m=0" if m == 0 else "m<n" if m < n else "m=n" if m == n else "m=n+1" if m == n + 1
                       else "m multiple of n" if n and m % n == 0 else "m>n"] += 1
+        us = all_uses(c)
+        feats["named_call"] += any(u.get("name") for _k, _t, _s, u, _b in us)
+        feats["named_for_each"] += any(k == "foreach" and u.get("name") for k, _t, _s, u, _b in us)
+        feats["named_for_each_evaluated_more_than_once"] += any(
+            k == "foreach" and u.get("name") and (c.get("iters", 1) > 1 or any(
+                t2["loop"][0] in ("count", "foreach") and (t in t2["nested"] or t in t2["friends"])
+                for t2, _ in walk(c["recipe"]))) for k, t, _s, u, _b in us)
+        keys = Counter(key_of(sid, u) for k, _t, sid, u, _b in us if k == "site")
+        feats["iterator_shared_by_2+_call_sites"] += any(v > 1 for v in keys.values())
+        feats["for_each_and_field_under_one_name"] += any(
+            k == "foreach" and u.get("name") and ("name/%s/%s" % (u["mode"], u["name"])) in keys for k, _t, _s, u, _b in us)
+        feats["falsy_name"] += any(("name" in u and not u["name"]) for _k, _t, _s, u, _b in us)
+        feats["ignored_keyword"] += any(u.get("extra") for _k, _t, _s, u, _b in us)
+        feats["continuation_run"] += bool(c.get("cont"))
+        if c.get("shape"):
+            shapes[c["shape"]] += 1
         feats["two_iterations"] += c.get("iters", 1) > 1
         feats["stopping_criterion_on_dataset_table"] += bool(c.get("target"))
         feats["sql_primary_key"] += any("pk" in ds for ds in c["datasets"].values())
@@ -1275,7 +1802,7 @@ def stats(cases, obss):
             feats["update_passthrough"] += bool(c["passthrough"])
     return {"kinds": dict(kinds), "dataset_sizes": {str(k): v for k, v in sorted(sizes.items(), key=lambda kv: str(kv[0]))},
             "uses": dict(modes), "sources": dict(srcs), "repeat_kw": dict(reps), "outcomes": dict(outcomes),
-            "placement": dict(place), "count_vs_size": dict(draws), "features": dict(feats)}
+            "placement": dict(place), "count_vs_size": dict(draws), "features": dict(feats), "named_shapes": dict(shapes)}
 
 
 # ---------------------------------------------------------------- shrinking / directed search
@@ -1300,6 +1827,15 @@ def _with_rows(case, name, rows):
 def shrink(case):
     """a few big steps only: every candidate costs a fresh worker pool in the driver"""
     import copy
+    if case["kind"] == "csv":
+        ds = case["datasets"]["d0"]
+        t = ds["text"]
+        for cut in (t[:len(t) // 2], t[len(t) // 2:], t[:-1], t[1:]):
+            if cut != t:
+                yield dict(case, datasets={"d0": dict(ds, text=cut)})
+        if ds.get("bom"):
+            yield dict(case, datasets={"d0": dict(ds, bom=False)})
+        return
     if case.get("iters", 1) > 1:
         yield dict(case, iters=1)
     for name, ds in case["datasets"].items():
